@@ -439,12 +439,16 @@ def _b(m, ins):
 def _bz(m, ins):
     if m.popu() == 0:
         m.jump(ins.args[0])
+    else:
+        m.blocks += 1
 
 
 @op("bnz")
 def _bnz(m, ins):
     if m.popu() != 0:
         m.jump(ins.args[0])
+    else:
+        m.blocks += 1
 
 
 @op("return")
